@@ -1,6 +1,7 @@
 (** Pins/C19.v — the statements of the C19 theorems, pinned: weakening a statement in
     Properties/C19.v makes this file fail. *)
-From PdfV Require Import Base.Prelude Gen.Generated Font.Model Font.Spec Font.WidthProofs Font.UtfProofs Font.CmapProofs Properties.C19.
+From Coq Require Import Sorted.
+From PdfV Require Import Base.Prelude Gen.Generated Font.Model Font.Spec Font.WidthProofs Font.UtfProofs Font.CmapProofs Font.WriterProofs Font.LexEq Font.SpellProofs Properties.C19.
 
 Check C19_get_set : forall w c x, exists w', _set w c x = Ok w' /\
   forall c', get w' c' = if c' =? c then x else get w c'.
@@ -17,3 +18,26 @@ Check C19_simple_widths : forall first ws missing c, (0 <= first)%Z ->
     get w c = simple_spec (Z.to_N first) ws (match missing with Some d => d | None => 0 end) c.
 Check C19_utf16_rt : forall u, forallb is_scalar u = true -> utf16be_to_string (utf16be_bytes u) = Ok u.
 Check C19_cmap_read : forall t, wf_cmap t -> parse_cmap (render_cmap t) = Ok (cmap_denote t).
+Check C19_cmap_rt : forall m : cmap, (forall e, In e m -> fst e < 65536 /\ wf_ustr (snd e)) ->
+    StronglySorted (fun a b => fst a < fst b) m ->
+    exists t, write_cmap m = Ok t /\ parse_cmap t = Ok m.
+Check C19_cmap_write : forall m : cmap, Forall wf_entry m -> StronglySorted key_lt m ->
+  exists t, write_cmap m = Ok (render_cmap t) /\ wf_cmap t /\ cmap_denote t = m.
+Check C19_cmap_rt_created : forall l, Forall wf_entry l ->
+  exists t, write_cmap (map_create l) = Ok t /\ parse_cmap t = Ok (map_create l).
+Check C19_cmap_read_spelled : forall t s, sp_text t s -> parse_cmap s = Ok (cmap_denote t).
+Check C19_lexer_shared : forall s p,
+  Font.Model.next_word s = proj_word (PdfV.Lex.Lexer.next_word (PdfV.Lex.Lexer.mkLx p s)).
+Check C19_hexstr_shared : forall l,
+  match PdfV.Lex.StrLexer.hexstring_lex l with
+  | Ok (b, n) => hexstr None l = Ok (b, skipn (N.to_nat n) l)
+  | Err _ => exists e, hexstr None l = Err e
+  | Panic _ => False
+  | OutOfFuel => False
+  end.
+Check C19_simple_widths_any : forall first ws missing c,
+  exists w, simple_widths (Some first) ws missing = Some w /\
+    get w c = simple_spec (i32_as_usize first) (match ws with Some l => l | None => [] end)
+                          (match missing with Some d => d | None => 0 end) c.
+Check C19_simple_widths_negative : forall first ws missing c, (-2147483648 <= first < 0)%Z -> c < 18446744071562067968 ->
+  exists w, simple_widths (Some first) ws missing = Some w /\ get w c = match missing with Some d => d | None => 0 end.
